@@ -214,6 +214,9 @@ def derived_ops():
         ("append('Z')", lambda f: f.append("Z"), lambda fc: fc + [("Z", ())]),
         ("f.join([f,f])", lambda f: f.join([f, f]), lambda fc: fc * 3),
         ("fmtstr('-').join([f,f])", lambda f: fmtstr("-").join([f, f]), lambda fc: fc + [("-", ())] + fc),
+        ("f.join(generator)", lambda f: f.join(x for x in [f, "q", f]), lambda fc: fc + fc + [("q", ())] + fc + fc),
+        ("f.join(map)", lambda f: f.join(map(str, ["p", "q"])), lambda fc: [("p", ())] + fc + [("q", ())]),
+        ("f.join(iter)", lambda f: f.join(iter([f, f])), lambda fc: fc * 3),
         ("ljust", lambda f: f.ljust(len(f) + 2), None),
         ("rjust*", lambda f: f.rjust(len(f) + 2, "*"), None),
         ("upper", lambda f: f.upper(), None),
@@ -312,7 +315,7 @@ def run(ctx):
         rep.merge(d, "derived_values")
     rep.validated = rep.n
     rep.rule = (
-        "derived: every value of U_layout(3,2,P3) pushed through 26 public operations with the operand never observed / rendered / fully "
+        "derived: every value of U_layout(3,2,P3) pushed through 29 public operations with the operand never observed / rendered / fully "
         "observed first; singles: all 59 049 assignments of (fg, bg in 8 colours+none) x (each of 6 styles absent/True/False) x texts %r; pairs: "
         "every True-set of P_full (5 184) next to each element of a sharp palette, both orders, with/without an empty formatted run "
         "between; triples over the 24-palette. Distinct by construction; non-trivial = some attribute given and text non-empty. "
